@@ -24,3 +24,12 @@ Fixpoint array_lens (t: ty) : list (list tt) :=
     (match c with CArray _ (Some (CNamedC v)) => [pr v] | _ => [] end) ++
     (match w with Some ws => flat_map array_lens ws | None => [] end)
   end.
+
+(* Type::base (reference prefix + Category::path) and Type::wraps (the base strings of the type and, recursively, of everything it
+   wraps), as tokens; a type parameter counts as USED by a field when its name equals the field type's own path or one of these strings *)
+Definition base_tok (t: ty) : list tt := match t with Ty c _ rt _ => pr_rt rt ++ pr_cat c end.
+Fixpoint wraps_list (t: ty) : list (list tt) :=
+  match t with Ty c w rt ao => (pr_rt rt ++ pr_cat c) :: match w with Some ws => flat_map wraps_list ws | None => [] end end.
+Definition is_name (n: string) (toks: list tt) : bool := match toks with [TId x] => String.eqb x n | _ => false end.
+Definition param_used (n: string) (t: ty) : bool :=
+  is_name n (match t with Ty c _ _ _ => pr_cat c end) || existsb (is_name n) (wraps_list t).
